@@ -79,9 +79,19 @@ func (e *Engine) VerifyFunc(fn *ssa.Function, spec *FuncSpec) (res *FuncResult) 
 		fr.params = append(fr.params, v)
 		names = append(names, p.Name())
 	}
+	// a closure verified on its own: captured variables are arbitrary cells
+	fvEnv := map[string]Val{}
 	for _, fv := range fn.FreeVars {
-		_ = fv
-		panic(unsupported("closure verified on its own"))
+		pt, ok := fv.Type().(*types.Pointer)
+		if !ok {
+			panic(unsupported("captured value that is not a variable reference"))
+		}
+		e.cellCtr++
+		c := &Cell{Name: fv.Name(), T: pt.Elem(), id: e.cellCtr}
+		v := e.freshVal(st, pt.Elem(), "fv_"+fv.Name())
+		st.cellv[c] = v
+		fr.freeVars = append(fr.freeVars, VPtr{L: &Loc{Kind: LCell, Cell: c, Base: pt.Elem()}, Elem: pt.Elem()})
+		fvEnv[fv.Name()] = v
 	}
 	// ghost parameters
 	for _, g := range spec.Ghosts {
@@ -93,6 +103,10 @@ func (e *Engine) VerifyFunc(fn *ssa.Function, spec *FuncSpec) (res *FuncResult) 
 	}
 	e.curEntry = &entryInfo{fn: fn, params: fr.params, names: names, heaps0: st.old}
 	env := e.entryEnv(fr)
+	for k, v := range fvEnv {
+		env[k] = v
+	}
+	fr.extraEnv = fvEnv
 	pre := &specCtx{e: e, st: st, env: env, heaps: st.heaps, oldHeaps: st.old, pkg: fn.Pkg}
 	for _, u := range spec.Unfolds {
 		pre.unfold(u)
@@ -265,6 +279,18 @@ func (e *Engine) resolveType(pkg *ssa.Package, expr string) (types.Type, error) 
 
 // LookupFunc finds the ssa function for a contract key in a package.
 func LookupFunc(prog *ssa.Program, pkg *ssa.Package, key string) *ssa.Function {
+	if i := strings.LastIndex(key, "$"); i > 0 {
+		parent := LookupFunc(prog, pkg, key[:i])
+		if parent == nil {
+			return nil
+		}
+		for _, a := range parent.AnonFuncs {
+			if a.Name() == parent.Name()+key[i:] {
+				return a
+			}
+		}
+		return nil
+	}
 	if !strings.HasPrefix(key, "(") {
 		return pkg.Func(key)
 	}
